@@ -347,7 +347,12 @@ def sys2Flow (s : Sys2St) (w : List String) (res : String) : Option String :=
   let good := b.startsWith "echo" || b.startsWith "stall"
   let accepted := kvOf rw "acc" != "-" && kvOf rw "acc" != ""
   if (rw.headD "").startsWith "fail" && good && accepted && kvOf w "cancel" == "" && !(onP && s.pDisturbed)
-      && s.unclaimedBound ≤ 4
+      -- (only while at most ONE message can be waiting for the accept time-out in front of the victim:
+      -- every unclaimed message legitimately holds the single RX slot up to the accept deadline, its
+      -- retransmissions do so again, and handlers that finished their rounds stay parked in `recv`, so
+      -- `unclaimedBound` under-estimates the head-of-line delay; with more of them a well-behaved
+      -- handler's own receive time-out can expire first - by design, not a wedge)
+      && s.unclaimedBound ≤ 1
       -- a handler that accepts only at (or within one poll of) the accept deadline may find the
       -- message already discarded by the accept-timeout sweep: the property allows that
       && kvNat rw "acc" + 80 < Consts.acceptTimeoutMs then
